@@ -1,7 +1,8 @@
 """C17: rendered types read back as the same type.
 
 TypeRender.tla enumerates the types of the property's sub-grammar (depth <= 3, within the renderer's size
-limits, checked by TLC) with their canonical annotation syntax and normal form.  Replay:
+limits, checked by TLC) with their canonical annotation syntax and normal form, and a literal alphabet
+(TypeAlgebra!ChTab / StrTab / IntTab: string literals as code-point sequences, integer literals) under every constructor.  Replay:
 t1 = ty(Syn(t)); text = humanize_type(t1, RenderLevel::Documentation); t2 = ty(text).
 Verdict: normal form of t2 == normal form of t1 (modulo union member order and alias expansion).
 Binding of the model: normal form of t1 == Norm(t) (else the case is recorded as a divergence and not judged).
@@ -38,6 +39,7 @@ def run(ctx):
         raise vlib.ToolError("render replay lost cases")
     canon = _typealg.make_canon(world.get("aliasnorm", {}))
     by_sig = {}
+    failing = []
     judged = 0
     unbound = 0
     not_judged = 0
@@ -60,19 +62,36 @@ def run(ctx):
         ctx.count(c["s"], nontrivial=c["depth"] >= 1)
         d2 = canon(r["d2"]) if r["single_line"] else None
         if d2 != d1:
-            key = "+".join(c["feat"]) if c["feat"] else "shape/" + c["skel"]
-            sig = "C17/roundtrip/" + key
-            by_sig.setdefault(sig, []).append({"annotation": c["s"], "rendered": r["rendered"],
-                                               "expected_readback_normal_form": d1, "observed_readback_normal_form": d2})
+            failing.append((c, {"annotation": c["s"], "rendered": r["rendered"],
+                                "expected_readback_normal_form": d1, "observed_readback_normal_form": d2}))
+    # Signature = the mechanism features (from the specification) of the failing term.  A failing term whose
+    # features include those of a smaller failing term (e.g. a union of two literals of which one alone already
+    # fails) is filed under the smaller term's signature instead of opening a new one.
+    failing.sort(key=lambda cf: (len(cf[0]["feat"]), len(cf[0]["s"]), cf[0]["s"]))
+    feat_sigs = []
+    for c, f in failing:
+        fs = set(c["feat"])
+        if not fs:
+            by_sig.setdefault("C17/roundtrip/shape/" + c["skel"], []).append(f)
+            continue
+        home = next((k for k in feat_sigs if k <= fs), None)
+        if home is None:
+            home = frozenset(fs)
+            feat_sigs.append(home)
+        by_sig.setdefault("C17/roundtrip/" + "+".join(sorted(home)), []).append(f)
     ctx.validated(judged)
     ctx.note("types", len(cases))
     ctx.note("types_judged", judged)
     ctx.note("types_not_bound_to_model", unbound)
     ctx.note("types_display_only_at_top_level", not_judged)
     ctx.rule("every type of the sub-grammar enumerated by TLC up to depth 3 (unions, optionals, arrays, map and record "
-             "tables over primitives, literals incl. quotes/backslash/negative, class/alias/enum references), rendered at "
-             "RenderLevel::Documentation and read back through `---@type`; distinct = distinct annotation texts; "
-             "non-trivial = depth >= 1")
+             "tables over primitives, literals, class/alias/enum references) plus the specification's literal alphabet "
+             "(string literals given as code-point sequences: quotes, backslashes, newline/tab, control characters before "
+             "letters and digits, non-ASCII, empty; integer literals zero/negative/large) bare and under every constructor, "
+             "rendered at RenderLevel::Documentation and read back through `---@type`; distinct = distinct annotation "
+             "texts; non-trivial = depth >= 1")
+    ctx.assume("string literal values are compared as code-point sequences (the harness reports the code points of the "
+               "analyser's literal, the specification lists them)")
     ctx.assume("equality of the read-back type is judged on normal forms: union members as a set, an alias reference "
                "equal to its origin (`Al?` is stored expanded by the analyser)")
     ctx.assume("a top-level reference to a type with members (the enum) is rendered as an expanded multi-line view at "
